@@ -1711,3 +1711,30 @@ pub fn verif_c12_params(n: &Uint, use_double: bool) -> (u32, u32, u32, usize) {
         a_value_count(n),
     )
 }
+
+// ---------------------------------------------------------------------------
+// Verification hooks (add-only, compiled only with --cfg yamaquasi_verif).
+
+/// The private parameter functions of SIQS for the (multiplied) input `n`:
+/// (fb_size, nfactors, a_value_count, a_tolerance_divisor, interval_size,
+///  large_prime_factor, double_large_factor)
+#[cfg(yamaquasi_verif)]
+pub fn verif_params(n: &Uint, use_double: bool) -> (u32, u32, usize, usize, u32, u64, u64) {
+    (
+        fb_size(n, use_double),
+        nfactors(n),
+        a_value_count(n),
+        a_tolerance_divisor(n),
+        interval_size(n, use_double),
+        large_prime_factor(n),
+        double_large_factor(n),
+    )
+}
+
+/// Sieve one polynomial with the private sieving routine; returns the number of
+/// complete relations held afterwards.
+#[cfg(yamaquasi_verif)]
+pub fn verif_sieve_poly(s: &SieveSIQS, a: &A, pol: &Poly) -> usize {
+    let _ = siqs_sieve_poly(s, a, pol, None);
+    s.rels.read().unwrap().len()
+}
